@@ -1,8 +1,12 @@
 package props
 
 import (
+	"context"
+	"errors"
 	"fmt"
+	"io"
 	"math/rand"
+	"net/http"
 	"net/url"
 	"os"
 	"os/exec"
@@ -680,6 +684,85 @@ func c09AfterFault(r *core.Run, idx int, rng *rand.Rand) {
 	r.Eval(fmt.Sprintf("after_fault|%s|%d", sc.Name, idx))
 }
 
+// failingBody delivers n bytes of data and then fails.
+type failingBody struct {
+	data []byte
+	n    int
+	pos  int
+	err  error
+}
+
+func (b *failingBody) Read(p []byte) (int, error) {
+	if b.pos >= b.n {
+		return 0, b.err
+	}
+	k := copy(p, b.data[b.pos:b.n])
+	b.pos += k
+	return k, nil
+}
+
+// c09Uploads: request bodies that break off with an IO error (connection reset, body limit of an interceptor) at
+// every kind of position, and query strings with parts that are legal but odd (no value, no name, stray separators)
+// beside a message that decodes and carries a signature.
+func c09Uploads(r *core.Run, idx int, rng *rand.Rand) {
+	const wl = "broken_uploads_and_odd_queries"
+	e := c09World()
+	e.W.NoLog = true
+	sp := stdSP(0)
+	a := validAuthn(rng, sp)
+	l := conformantLogout(rng, sp)
+	q := conformantQuery(rng, sp, "c09user")
+	judge := func(class string, what map[string]any, c *env.Call) {
+		r.Count("requests", 1)
+		if c.Panic != "" {
+			r.Violate(core.Violation{Clause: "panic", Class: class, Reason: firstLine(c.Panic) + " @ " + panicSite(c.Stack), Workload: wl, Index: idx, Case: what, Observed: c.Describe()})
+		}
+	}
+	posts := []struct{ name, path, ct, body string }{
+		{"sso_form", env.PathSSO, "", spsim.FormBody("SAMLRequest", spsim.B64([]byte(a.XML(rng))), "RelayState", "r")},
+		{"logout_form", env.PathSLO, "", spsim.FormBody("SAMLRequest", spsim.B64([]byte(l.XML(rng))), "RelayState", "r")},
+		{"attribute_query", env.PathAttr, "text/xml", q.XML(rng)},
+		{"callback_form", env.PathLogin, "", "id=unknown"},
+	}
+	errs := []error{io.ErrUnexpectedEOF, errors.New("read tcp 192.0.2.1:443: connection reset by peer"), &http.MaxBytesError{Limit: 16}, context.Canceled}
+	for _, p := range posts {
+		for _, cut := range []int{0, 1, len(p.body) / 3, len(p.body) / 2, len(p.body) - 1, len(p.body)} {
+			for _, er := range errs {
+				fb := &failingBody{data: []byte(p.body), n: cut, err: er}
+				c := e.Do(env.Req{Method: "POST", Path: p.path, CT: p.ct, BodyReader: fb, BodyLen: int64(len(p.body))})
+				judge("broken_upload|"+p.name, map[string]any{"endpoint": p.name, "body_bytes_delivered": cut, "of": len(p.body), "error": er.Error()}, c)
+				r.Count("broken_uploads", 1)
+			}
+		}
+	}
+	// odd query parts beside a signed (or unsigned) message on the redirect binding
+	odd := []string{"nocache", "&", "&&", "=", "=x", "x=", "%", "a=%zz", "%zz=a", ";", "a;b=c", "&=&", "?", "#", "SAMLRequest", "Signature", "SigAlg", "RelayState", "SAMLEncoding", "+", "a=b=c", "\u00e4", "a[]=1", "=" + strings.Repeat("A", 3000)}
+	for _, signed := range []bool{true, false} {
+		for _, kind := range []string{"authn", "logout"} {
+			x, path := a.XML(rng), env.PathSSO
+			if kind == "logout" {
+				x, path = l.XML(rng), env.PathSLO
+			}
+			m := &spsim.RedirectMsg{Param: "SAMLRequest", Value: spsim.DeflateB64(x), RelayState: "r", HasRelay: true, Pct: spsim.PctGo}
+			if signed {
+				m.SigAlg = spsim.AlgRSASHA256
+				if err := m.Sign(keys.Get("sp0").RSA); err != nil {
+					panic(err)
+				}
+			}
+			base := m.RawQuery()
+			for _, o := range odd {
+				for _, qs := range []string{base + "&" + o, o + "&" + base, strings.Replace(base, "&", "&"+o+"&", 1)} {
+					c := e.Do(env.Req{Path: path, Query: qs})
+					judge(fmt.Sprintf("odd_query|%s|signed=%v", kind, signed), map[string]any{"odd_part": o, "query": clipS(qs, 400)}, c)
+					r.Count("odd_queries", 1)
+				}
+			}
+		}
+	}
+	r.EvalBulk(int64(len(posts)*6*len(errs)+4*len(odd)*3), int64(len(posts)*6*len(errs)+4*len(odd)*3))
+}
+
 // c09Tiny sends every one-byte message and many 2-4 byte messages through every decoding endpoint.
 func c09Tiny(r *core.Run, idx int, rng *rand.Rand) {
 	const wl = "tiny_payloads"
@@ -784,7 +867,7 @@ func init() {
 		TimeoutQuick: 8 * time.Minute, TimeoutThorough: 60 * time.Minute,
 		Build: func(c *Ctx) []core.Workload {
 			r := c.Run
-			r.Rule = "(a) every single deletion / duplication / emptying of each element and attribute of valid AuthnRequest, LogoutRequest, AttributeQuery and SOAP envelopes (unsigned, query-signed, signed then edited, edited then signed) on all transports, thorough: all pairs of such edits; (b) every SigAlg URI known to the libraries x registered key type {RSA, ECDSA, Ed25519, DSA, none} x signature shapes x both bindings; (c) every routed and unrouted path x 9 methods x missing / duplicated / malformed parameters, content types, Forwarded / Origin headers, Host values; (d) byte-level mutations of messages and of the encoded parameter; (e) SP metadata: the same edit families on EntityDescriptor documents, garbled / wrapped / PEM-armoured / non-RSA certificates, byte mutations, followed by requests naming an accepted registration; (e2) on one provider: a request during which each storage operation fails in each way, followed by the same request and a metadata request without fault; the same with faults that persist over three requests (an operation that keeps failing, certificate and key that do not belong together, a refused signature algorithm) and recovery; (e3) every one-byte and many 2-4 byte payloads (raw and with container magic numbers) on every decoding endpoint; thorough (f): coverage-guided go test -fuzz on the decoders, NewServiceProvider and a whole-handler target. Monitor: recover() around ServeHTTP and NewServiceProvider, child-process death, watchdog. Distinct = structurally different inputs (by construction for the enumerations)."
+			r.Rule = "(a) every single deletion / duplication / emptying of each element and attribute of valid AuthnRequest, LogoutRequest, AttributeQuery and SOAP envelopes (unsigned, query-signed, signed then edited, edited then signed) on all transports, thorough: all pairs of such edits; (b) every SigAlg URI known to the libraries x registered key type {RSA, ECDSA, Ed25519, DSA, none} x signature shapes x both bindings; (c) every routed and unrouted path x 9 methods x missing / duplicated / malformed parameters, content types, Forwarded / Origin headers, Host values; (d) byte-level mutations of messages and of the encoded parameter; (e) SP metadata: the same edit families on EntityDescriptor documents, garbled / wrapped / PEM-armoured / non-RSA certificates, byte mutations, followed by requests naming an accepted registration; (e2) on one provider: a request during which each storage operation fails in each way, followed by the same request and a metadata request without fault; the same with faults that persist over three requests (an operation that keeps failing, certificate and key that do not belong together, a refused signature algorithm) and recovery; (e3) request bodies that break off with an IO error at every kind of position and odd-but-legal query parts beside decodable (signed) messages; every one-byte and many 2-4 byte payloads (raw and with container magic numbers) on every decoding endpoint; thorough (f): coverage-guided go test -fuzz on the decoders, NewServiceProvider and a whole-handler target. Monitor: recover() around ServeHTTP and NewServiceProvider, child-process death, watchdog. Distinct = structurally different inputs (by construction for the enumerations)."
 			n := len(c09Bases(rand.New(rand.NewSource(11))))
 			r.Require("single_edits", 1500)
 			r.Require("grid_cells", 40)
@@ -792,6 +875,8 @@ func init() {
 			r.Require("requests", 5000)
 			r.Require("fault_then_good_sequences", 80)
 			r.Require("persistent_fault_sequences", 100)
+			r.Require("broken_uploads", 100)
+			r.Require("odd_queries", 200)
 			r.Require("one_byte_payloads", 256)
 			wls := []core.Workload{
 				{Name: "single_edits", N: n, Fn: c09Edits(false)},
@@ -801,6 +886,7 @@ func init() {
 				{Name: "sp_metadata", N: c.Pick(6, 60), Fn: c09Metadata},
 				{Name: "requests_after_storage_faults", N: c.Pick(17, 68), Fn: c09AfterFault},
 				{Name: "tiny_payloads", N: c.Pick(4, 40), Fn: c09Tiny},
+				{Name: "broken_uploads_and_odd_queries", N: c.Pick(2, 10), Fn: c09Uploads},
 			}
 			if c.Thorough {
 				wls = append(wls, core.Workload{Name: "edit_pairs", N: n * 16, Fn: c09Edits(true)})
